@@ -10,15 +10,61 @@ Import ListNotations.
 Local Open Scope N_scope.
 
 (* Whatever the store held before, after a successful InsertEntry / UpdateEntry of
-   e at p (any attributes, any number of chunks — compressed or not —, extended,
-   hard-link fields, content, remote), both the lookup and the listing return
-   [canon e] = AfterEntryDeserialization . BeforeEntrySerialization, Mime rule. *)
+   e at p (any attributes, any number of chunks -- compressed or not --, extended,
+   hard-link fields, content, remote):
+   - the lookup returns [read_back e] = wire (canon e): AfterEntryDeserialization .
+     BeforeEntrySerialization, the Mime rule, times in whole seconds;
+   - the wrapper's listing (ListDirectoryEntries), for every start name / inclusive flag
+     that lets the name pass, contains the name with the same [read_back e];
+   - the embedded stores' own prefixed listing (FilerStoreWrapper.ListDirectoryPrefixedEntries
+     hands the callback to leveldb/leveldb2/leveldb3 unwrapped: the path of
+     Filer.doListDirectoryEntries), for every prefix / start / inclusive that lets the name
+     pass, contains the name with [wire (prepare e)]: the same entry before
+     AfterEntryDeserialization (c24_listing_paths_agree: identical for a reader).
+   A page (limit) is a prefix of these lists (c24_listing_page). *)
 Theorem c24_roundtrip : forall (blob : Type) (C : codec blob), codec_laws C ->
   forall st p e st', wrapper_insert C st p e = Some st' ->
-  wrapper_find C st' p = SOk (canon e) /\
-  In (snd p, Some (canon e)) (wrapper_list C st' (fst p)).
+  wrapper_find C st' p = SOk (read_back e) /\
+  (forall start incl, list_filter start incl "" (snd p) = true ->
+     In (snd p, Some (read_back e)) (wrapper_list_all C st' (fst p) start incl)) /\
+  (forall start incl pfx, list_filter start incl pfx (snd p) = true ->
+     In (snd p, Some (wire (prepare e))) (store_list_all C st' (fst p) start incl pfx)).
 Proof. exact (@insert_then_find). Qed.
 Print Assumptions c24_roundtrip.
+
+(* the listing of a store, exactly: the names stored under the directory that pass the
+   prefix / start / inclusive filter, each with the decoding of the value at its own path
+   (needs no oracle law) *)
+Theorem c24_listing_spec : forall (blob : Type) (C : codec blob) st dir start incl pfx n oe,
+  In (n, oe) (store_list_all C st dir start incl pfx) <->
+  (list_filter start incl pfx n = true /\
+   exists b, aget path_eqb (dir, n) (st_entries st) = Some b /\
+             oe = decode_entry C (maybe_decompress C b)).
+Proof. exact (@store_list_spec). Qed.
+Print Assumptions c24_listing_spec.
+
+Theorem c24_listing_page : forall (blob : Type) (C : codec blob) st dir start incl limit pfx,
+  store_list C st dir start incl limit pfx = firstn limit (store_list_all C st dir start incl pfx).
+Proof. exact (@store_list_page). Qed.
+Print Assumptions c24_listing_page.
+
+(* a (paged, prefixed) listing never invents or mixes entries: what it returns under a
+   name is what the store's FindEntry returns for that path *)
+Theorem c24_listing_returns_stored : forall (blob : Type) (C : codec blob) st dir start incl limit pfx n oe,
+  In (n, oe) (wrapper_list_prefixed C st dir start incl limit pfx) ->
+  list_filter start incl pfx n = true /\
+  match store_find C st (dir, n) with
+  | SOk e => oe = Some e
+  | SErr => oe = None
+  | SNotFound => False
+  end.
+Proof. exact (@listing_returns_stored). Qed.
+Print Assumptions c24_listing_returns_stored.
+
+(* the two read paths agree in the reader's view (file ids through GetFileIdString) *)
+Theorem c24_listing_paths_agree : forall e, view (wire (prepare e)) = view (read_back e).
+Proof. exact view_paths_agree. Qed.
+Print Assumptions c24_listing_paths_agree.
 
 Theorem c24_insert_into_empty_succeeds : forall (blob : Type) (C : codec blob) p e,
   wrapper_insert C empty_state p e <> None.
@@ -40,34 +86,59 @@ Theorem c24_stored_value : forall (blob : Type) (C : codec blob), codec_laws C -
 Proof. exact (@stored_value_cases). Qed.
 Print Assumptions c24_stored_value.
 
-(* Every field of Attr survives EntryAttributeToPb / PbToEntryAttribute (Mtime and
-   Crtime at the wire format's granularity of one second), and every field of the
-   entry survives ToExistingProtoEntry / FromPbEntryToExistingEntry. *)
-Theorem c24_attr_roundtrip : forall a, pb_to_attr (Some (attr_to_pb a)) = a.
+(* Every field of Attr survives EntryAttributeToPb / PbToEntryAttribute EXCEPT the
+   sub-second part of Mtime and Crtime (FuseAttributes.mtime/crtime are int64 seconds;
+   PbToEntryAttribute rebuilds time.Unix(sec, 0)): c24_time_granularity says exactly when
+   nothing is lost.  Every other field of the entry survives ToExistingProtoEntry /
+   FromPbEntryToExistingEntry. *)
+Theorem c24_attr_roundtrip : forall a, pb_to_attr (Some (attr_to_pb a)) = wire_attr a.
 Proof. exact attr_pb_roundtrip. Qed.
 Print Assumptions c24_attr_roundtrip.
 
-Theorem c24_entry_pb_roundtrip : forall e, from_pb (to_pb e) = e.
+Theorem c24_time_granularity : forall a, wire_attr a = a <-> (a_mtime_ns a = 0 /\ a_crtime_ns a = 0).
+Proof. exact wire_attr_id_iff. Qed.
+Print Assumptions c24_time_granularity.
+
+Theorem c24_entry_pb_roundtrip : forall e, from_pb (to_pb e) = wire e.
 Proof. exact from_to_pb. Qed.
 Print Assumptions c24_entry_pb_roundtrip.
 
-(* "reads back equal": as a reader sees it (file ids through GetFileIdString),
-   canon is the identity on entries whose file id strings are canonical ...
-   KNOWN FINDING 0: not for Mime = "application/octet-stream" (stored as ""). *)
+Theorem c24_wire_exact : forall e, wire e = e <-> trigger_subsec e = false.
+Proof. exact wire_id_iff. Qed.
+Print Assumptions c24_wire_exact.
+
+(* "reads back equal": as a reader sees it (file ids through GetFileIdString), on
+   entries whose file id strings are canonical.
+   KNOWN FINDING 0: not for Mime = "application/octet-stream" (stored as "").
+   KNOWN FINDING 2: not for a Mtime / Crtime with a sub-second part (dropped).
+   Each is refuted on an entry that is outside the other trigger. *)
 Theorem c24_reads_back_equal_refuted : exists e,
-  forallb chunk_canonical (e_chunks e) = true /\ view (canon e) <> view e.
+  forallb chunk_canonical (e_chunks e) = true /\ trigger_subsec e = false /\ view (read_back e) <> view e.
 Proof. exact canon_identity_refuted. Qed.
 Print Assumptions c24_reads_back_equal_refuted.
 
+Theorem c24_subsecond_time_refuted : exists e,
+  forallb chunk_canonical (e_chunks e) = true /\ trigger_octet e = false /\ view (read_back e) <> view e.
+Proof. exact subsec_refuted. Qed.
+Print Assumptions c24_subsecond_time_refuted.
+
+(* outside both triggers: equal by lookup / wrapper listing AND by the stores' prefixed listing *)
 Theorem c24_reads_back_equal_partial : forall e,
-  trigger_octet e = false -> forallb chunk_canonical (e_chunks e) = true -> view (canon e) = view e.
-Proof. exact view_canon. Qed.
+  trigger_octet e = false -> trigger_subsec e = false ->
+  forallb chunk_canonical (e_chunks e) = true ->
+  view (read_back e) = view e /\ view (wire (prepare e)) = view e.
+Proof. exact view_read_back. Qed.
 Print Assumptions c24_reads_back_equal_partial.
+
+(* trigger 2 is exact: nothing but the sub-second parts separates read_back from canon *)
+Theorem c24_subsecond_exact : forall e, read_back e = canon e <-> trigger_subsec e = false.
+Proof. exact read_back_canon_iff. Qed.
+Print Assumptions c24_subsecond_exact.
 
 (* file ids: what comes back is canonical (a fixed point of canonicalisation) ... *)
 Theorem c24_read_back_ids_canonical : forall e,
   (forall c, In c (e_chunks e) -> chunk_fids_wf c) ->
-  forall c, In c (e_chunks (view (canon e))) -> chunk_canonical c = true.
+  forall c, In c (e_chunks (view (read_back e))) -> chunk_canonical c = true.
 Proof. exact canon_ids_canonical. Qed.
 Print Assumptions c24_read_back_ids_canonical.
 
@@ -80,46 +151,31 @@ Theorem c24_unparsable_verbatim : forall s, parse_fid s = None -> canon_str s = 
 Proof. exact canon_str_unparsable. Qed.
 Print Assumptions c24_unparsable_verbatim.
 
-(* ... and "equal to what was written": the (volume, key, cookie) a written string
-   denotes is the one the read-back string denotes.
-   KNOWN FINDING 1: not for needle key 0, whose canonical text does not parse. *)
-Theorem c24_same_file_id_refuted : exists s f, parse_fid s = Some f /\ parse_fid (canon_str s) = None.
-Proof. exact canon_str_loses_key_zero. Qed.
-Print Assumptions c24_same_file_id_refuted.
-
-Theorem c24_same_file_id_partial : forall s f, parse_fid s = Some f -> str_key_zero s = false ->
-  parse_fid (canon_str s) = Some f.
+(* ... and "equal to what was written", FULL: the (volume, key, cookie) a written string
+   denotes is the one the read-back string denotes, needle key 0 included
+   (formatNeedleIdCookie is modelled as repaired in the working tree; former finding 1). *)
+Theorem c24_same_file_id : forall s f, parse_fid s = Some f -> parse_fid (canon_str s) = Some f.
 Proof. exact canon_str_preserves_id. Qed.
-Print Assumptions c24_same_file_id_partial.
+Print Assumptions c24_same_file_id.
 
-Theorem c24_parse_format : forall f, fid_wf f = true ->
-  parse_fid (format_fid f) = if f_key f =? 0 then None else Some f.
+Theorem c24_parse_format : forall f, fid_wf f = true -> parse_fid (format_fid f) = Some f.
 Proof. exact parse_format_fid. Qed.
 Print Assumptions c24_parse_format.
 
+(* the former witness of finding 1: now a fixed point that denotes (3, 0, 0x637037d6) *)
+Example c24_key_zero_example :
+  canon_str (s2b "3,00637037d6") = s2b "3,00637037d6" /\
+  canon_str (s2b "3,0000000000000000637037D6") = s2b "3,00637037d6" /\
+  parse_fid (s2b "3,00637037d6") = Some {| f_vid := 3; f_key := 0; f_cookie := 1668298710 |} /\
+  parse_fid (s2b "3,637037d6") = None.
+Proof. exact canon_str_key_zero_example. Qed.
+Print Assumptions c24_key_zero_example.
+
 (* non-vacuity: a codec satisfying the laws exists; on it an entry with a
    non-canonical id, a source id, an unparsable id and a hard link is inserted
-   over an older version and read back canonically, by lookup and by listing *)
+   over an older version next to two siblings and read back canonically by lookup, by the
+   wrapper's listing and (one page) by the prefixed listing, in byte order of the names *)
 Example c24_example :
-  (forall blen glen, codec_laws (sym_codec blen glen)) /\
-  (let mk := fun (id src : string) =>
-       {| c_file_id := s2b id; c_offset := 0%Z; c_size := 5; c_mtime := 7%Z; c_etag := "e"%string;
-          c_source_file_id := s2b src; c_fid := None; c_source_fid := None; c_cipher_key := [1; 2];
-          c_is_compressed := true; c_is_manifest := false |} in
-   let e := {| e_attr := set_mime zero_attr "text/plain"%string; e_extended := [("k"%string, [1])];
-               e_chunks := [mk "3,1637037D6"%string "4,02aabbccdd"%string; mk "abc"%string ""%string];
-               e_hard_link_id := [9; 9; 1]; e_hard_link_counter := 2%Z; e_content := [31; 139; 0];
-               e_remote := Some {| rm_last_modified_at := 1%Z; rm_size := 2%Z; rm_etag := "r"%string |} |} in
-   let C := sym_codec 100 50 in
-   match wrapper_insert C empty_state ("/d"%string, "f"%string) e with
-   | Some st1 =>
-       match wrapper_insert C st1 ("/d"%string, "f"%string) e with
-       | Some st2 =>
-           wrapper_find C st2 ("/d"%string, "f"%string) = SOk (canon e) /\
-           map (fun c => c_file_id c) (e_chunks (canon e)) = [s2b "3,01637037d6"; s2b "abc"] /\
-           view (canon e) <> view e
-       | None => False
-       end
-   | None => False
-   end).
-Proof. split; [exact sym_codec_laws | vm_compute; repeat split; try reflexivity; discriminate]. Qed.
+  (forall blen glen, codec_laws (sym_codec blen glen)) /\ c24_example_stmt.
+Proof. exact (conj sym_codec_laws c24_example_ok). Qed.
+Print Assumptions c24_example.
